@@ -588,7 +588,7 @@ def match_call(c, x, y):
 
 
 def ex_match(c):
-    x, y = arr(c["x"], c.get("container", "array")), arr(c["y"], c.get("container", "array"))
+    x, y = arr(c["x"], c.get("container", "array")), arr(c["y"], c.get("ycontainer", c.get("container", "array")))
     y0 = np.array(y, dtype=float, copy=True)
     oc, o = guarded(lambda: match_call(c, x, y))
     oc2, o2 = guarded(lambda: match_call(c, x, o)) if oc == "ok" else ("skipped", None)
